@@ -297,7 +297,8 @@ ADDED = {
            " Step pair: a request and its T-flagged repeat in one write.",
     "C18": "A connect pending at stop() may fail inside the shutdown window (peer with two addresses)."
            " Cases with 50 - 120 connections whose DPAs arrive in one pass."
-           " Reaction crossing_dpr (the peer's own DPR crosses the node's) and the oracle that a connection is not closed before its DPA while the wait timeout runs.",
+           " Reaction crossing_dpr (the peer's own DPR crosses the node's) and the oracle that a connection is not closed before its DPA while the wait timeout runs."
+           " stop() may be called while the node's thread is in the middle of its reconnect pass (held at the socket creation of a due dial until the shutdown has been announced).",
     "C19": "Kind socket_creation_fails: reconnect attempts that die before a socket exists."
            " A worker of a closed connection that still runs 15 s after being told to stop ends the kind with a witness.",
     "C20": "The application object is re-registered with a node of another identity after every fourth command; node-built "
